@@ -173,7 +173,7 @@ PROPS = {
                         [("GcpVerif.Proofs.GME4", "GcpVerif.GME." + n) for n in ["update_new_multiendpoint_routes_to_top_ready", "new_multiendpoint_routes_to_top_ready", "update_creates_told", "idxOf_eraseDups_lt"]] +
                         [("GcpVerif.Proofs.METell", "GcpVerif.ME." + n) for n in ["tell_true", "tell_false_noop", "muc_id_of_told"]] +
                         [("GcpVerif.Proofs.Monitor", "GcpVerif.Monitor." + n) for n in ["blocked_means_told", "progress", "report_is_current", "reread_misses_update", "split_read_undoes_sync", "sync_read_missed_update", "monitor_loop_shape", "monitor_reads_state_under_lock", "status_update_wakes_monitors", "status_update_in_priority_order", "sync_tells_current"]],
-            "leanchecker": ["GcpVerif.Proofs.GME", "GcpVerif.Proofs.GME3", "GcpVerif.Proofs.Monitor"], "trusted_base": GME_TB,
+            "leanchecker": ["GcpVerif.Proofs.GME", "GcpVerif.Proofs.GME3", "GcpVerif.Proofs.GME4", "GcpVerif.Proofs.METell", "GcpVerif.Proofs.Monitor"], "trusted_base": GME_TB,
             "assumptions": ["'within bounded time' is observed only through the monitor's notification being delivered by the harness"]},
     "C16": {"harnesses": ["gme", "me"], "lake_targets": ["GcpVerif"],
             "theorems": gme_thms(["failed_update_is_identity", "invalid_options_rejected", "dial_failure_rejected", "close_releases_all", "close_leaves_timers", "rpc_routes_current"]) +
